@@ -7,7 +7,7 @@ PROPS = {
     "C01": dict(
         rule="value trees: all trees with <=3 nodes over payload alphabet {a,CR,LF,$} (payload length <=1 quick / <=2 thorough) "
              "plus PRNG-generated trees (depth<=6, arity<=40, payload classes: empty, all 256 bytes, CR/LF/NUL, forged frames, type bytes, digits, 64KiB) "
-             "built through the public constructors, plus constructor cases on boundary and random ints/floats; "
+             "built through the public constructors, wide arrays (255..4097 elements, 65536 thorough) and large bulk payloads (511 B..64 KiB, 1 MiB thorough) also nested, plus constructor cases on boundary and random ints/floats; "
              "non-trivial = in the property's domain (no CR/LF in line payloads) with >=1 payload byte or >=2 nodes; distinct = distinct case line",
         trusted_base=[KERNEL, TIE,
                       "strconv.FormatFloat/ParseFloat are parameters of the model (law: shortest formatting parses back); exercised by the tie",
@@ -18,14 +18,14 @@ PROPS = {
 }
 
 PROPS["C02"] = dict(
-    rule="streams of 1..8 canonical values (C01 generator) x partitions of their byte stream: whole, all-1-byte, every 2-way split point "
+    rule="streams of 1..8 canonical values (C01 generator; plus 19 streams with a bulk of 511..70000 bytes - sizes around 512/1Ki/4Ki/8Ki/64Ki - alone, inside an array and mid-pipeline, always with values behind it) x partitions of their byte stream: whole, all-1-byte, every 2-way split point "
          "(exhaustive for streams <=300 bytes quick / <=3000 thorough, 40 sampled beyond), 6 random k-way partitions; "
          "delivered by a scripted io.Reader that never crosses a segment boundary; non-trivial = every case (>=1 value); distinct = distinct case line",
     trusted_base=[KERNEL, TIE, "io.Reader contract: >=1 byte unless at end of stream, (0, io.EOF) only at the end (net.TCPConn, tls.Conn, net.Pipe, bytes.Buffer)"],
     assumptions=["readers returning (0, nil) or (n>0, io.EOF) are outside the modelled transport contract"],
 )
 PROPS["C06"] = dict(
-    rule="hostile streams: hand-picked near-valid frames (whole and byte-by-byte), deep nesting, and structure-aware mutations of valid streams "
+    rule="hostile streams: hand-picked near-valid frames (whole and byte-by-byte), deep nesting up to the 1 MiB bound (65536, 131072, 262143 levels, in an isolated child), and structure-aware mutations of valid streams "
          "(truncate, splice, flip, duplicate, edit length/count digits to boundary integers 2^31-1, 2^31, 2^63-2, 2^63-1, 10^13, -1, -2^63, 512MiB+-1, "
          "drop/double CR/LF), random bytes; declared sizes >=10^7 run in an isolated child (GOMEMLIMIT, 5 s); "
          "non-trivial = every case; distinct = distinct case line",
@@ -37,9 +37,9 @@ PROPS["C06"] = dict(
 HOOK = "verif hook H1 (VerifServeConn): the real connection loop served synchronously over a scripted in-memory net.Conn"
 DOUBLE = "recording handler double answering from the case's script; tracer double on go-tracing's own span context"
 SERVE_TB = [KERNEL, TIE, HOOK, DOUBLE,
-            "strconv.ParseFloat is a parameter of the model (float table travels on the case line); strings.ToUpper outside ASCII, time.Now, regexp are not modelled",
+            "strconv.ParseFloat is a parameter of the model (float table travels on the case line); command and option names are upper-cased byte-wise for a-z only (upperASCII, exactly the model's `upper`); time.Now and regexp are not modelled",
             "Go map iteration order: call groups of MSET/MSETNX/HMSET are compared as sets"]
-SERVE_AS = ["transport contract of C02", "command and option names in generated cases are ASCII",
+SERVE_AS = ["transport contract of C02", "command and option names in generated cases are ASCII except the unknown-command cases (names whose Unicode upper case would spell a command)",
             "EXPIRE ttl within +-10^8 s and EXPIREAT timestamps away from the current time so the double can tell them apart"]
 
 PROPS["C03"] = dict(canon="serve", timeout=1200,
@@ -50,19 +50,19 @@ PROPS["C03"] = dict(canon="serve", timeout=1200,
 PROPS["C04"] = dict(canon="serve", timeout=1200,
     rule="client streams made of RESP values of every type, command names/arguments with CRLF + forged +OK/:1/$-1 frames, null/nested/empty command arrays, "
          "with and without a command handler x handler results of every message type incl. nil message, nil array, nil element, errors with CRLF, message+error; "
-         "plus concurrent cases (conc4): 2..6 connections on the example store with 1..16 KiB array replies (LRANGE, MGET, ZRANGE WITHSCORES), each read in 5..20-byte pieces with scheduling "
+         "a reader that pauses 6..8 s inside a 20..80 KB reply with further requests pipelined (stallr, unbuffered pipe: any write timeout an implementation may have expires); plus concurrent cases (conc4): 2..6 connections on the example store with 1..16 KiB array replies (LRANGE, MGET, ZRANGE WITHSCORES), each read in 5..20-byte pieces with scheduling "
          "points in between over unbuffered pipes, every connection's bytes compared exactly with the model's replies; "
          "oracle: an independent strict RESP2 reader must split everything written into complete canonical frames; non-trivial = every case",
     trusted_base=SERVE_TB, assumptions=SERVE_AS)
 PROPS["C05"] = dict(canon="serve", timeout=1200,
     rule="for each of the 38 single-call commands: well-formed requests from an independent grammar (all option subsets and orders, binary strings, boundary ints/floats, "
-         "1..k list elements, duplicate keys, random letter case of command and option names) with the expected handler call computed by the grammar, plus unknown commands; "
+         "1..k list elements, duplicate keys, repeated options, random letter case of command and option names) with the expected handler call computed by the grammar, wide requests (list arguments of 255..5000 elements), a client that lags 2.6 s before sending EXPIRE/SETEX/SET EX (relative times are relative to the request), plus unknown commands incl. names whose Unicode upper case would spell a command; "
          "non-trivial = every case; distinct = distinct case line",
     trusted_base=SERVE_TB, assumptions=SERVE_AS)
 PROPS["C07"] = dict(canon="serve", timeout=1200,
     rule="hostile streams: empty/null/nested command arrays, non-array values, mutated valid requests (C06 mutators), every command with boundary arguments, "
          "disconnect at arbitrary points x wild handler results (nil message, nil array, nil elements, odd-length arrays, errors); "
-         "plus stalled-writer witness cases (stallw): 1..3 clients that pipeline requests and never read, over unbuffered pipes, on the double and on the example store, while witness "
+         "mass-disconnect cases (massdisc: 50 and 200 clients closed at the same instant, then a witness and an empty registry); plus stalled-writer witness cases (stallw): 1..3 clients that pipeline requests and never read, over unbuffered pipes, on the double and on the example store, while witness "
          "connections opened afterwards must get exact replies; "
          "oracle: no panic escapes the connection loop, the loop returns, the registry is empty afterwards, witnesses are served",
     trusted_base=SERVE_TB, assumptions=SERVE_AS + ["process-level effects (OS limits, fatal runtime errors that are not panics) are outside the model"])
@@ -74,12 +74,12 @@ PROPS["C10"] = dict(canon="serve", timeout=1200,
          "oracle: zero handler calls, an error reply, then +PONG; non-trivial = every case",
     trusted_base=SERVE_TB, assumptions=SERVE_AS)
 PROPS["C11"] = dict(canon="serve", timeout=1200,
-    rule="every byte offset of generated pipelines of 1..4 valid requests as the end of the stream (whole or randomly segmented); "
+    rule="every byte offset of generated pipelines of 1..4 valid requests as the end of the stream (whole or randomly segmented); plus real-socket cases (plain and TLS): a request cut off by close, reset, between CR and LF, inside a bulk payload, with unread replies, a stalled request then reset - resources at baseline; "
          "oracle: replies = requests received completely, registry empty after return; non-trivial = every case",
     trusted_base=SERVE_TB, assumptions=SERVE_AS)
 PROPS["C20"] = dict(canon="serve", timeout=1200,
     rule="pipelines of C03 (valid, ill-formed, unknown, QUIT, composed commands) with a recording tracer, authorized and unauthorized, end of stream at the end, at a request boundary "
-         "and at a sampled inner offset; connections whose k-th and later writes fail (wfail=k) and streams that end with the socket closed or reset instead of EOF (rerr=closed|reset, at "
+         "and at a sampled inner offset; pipelines with non-array values, empty / null / nested arrays mixed in as requests; connections whose k-th and later writes fail (wfail=k) and streams that end with the socket closed or reset instead of EOF (rerr=closed|reset, at "
          "request boundaries); oracle: every span started once and finished once, children inside parents, one root per request; non-trivial = every case",
     trusted_base=SERVE_TB, assumptions=SERVE_AS + ["runs that end in a recovered panic leave spans open; they are C07's subject"])
 
@@ -89,7 +89,7 @@ SYS_TB = [KERNEL, TIE, HOOK + ", one goroutine per connection, requests released
 PROPS["C08"] = dict(canon="sys", timeout=1200,
     rule="per password (5 passwords incl. spaces and CRLF): every candidate of the dictionary (empty, each strict prefix, extensions incl. NUL/CRLF, case variants, wrong/same user names, "
          "missing/null arguments) in the one- and two-argument form and in other letter cases, followed by probes; exact forms; wrong-after-right and right-after-wrong; "
-         "all interleavings of 2 connections x 6 programs (3 connections in thorough); random histories over 1..3 connections mixing AUTH candidates with every command; "
+         "all interleavings of 2 connections x 6 programs (3 connections in thorough); random histories over 1..3 connections mixing AUTH candidates with every command; every third case also on connections served as TLS connections are (tlsState present); "
          "oracle: no handler call and no non-error reply on a connection before its own exact AUTH; exact AUTH answered +OK; non-trivial = every case",
     trusted_base=SYS_TB, assumptions=["no TLS certificate rule configured (that is C09)", "requests are atomic with respect to connection-scoped state (only the connection's own goroutine touches it)"])
 PROPS["C13"] = dict(canon="sys", timeout=1200,
@@ -123,7 +123,7 @@ PROPS["C12"] = dict(canon="serve", prep=True, model_is_oracle=False, timeout=120
     rule="programs run through the real framework with a handler double that replays the results of the Lean reference store (computed per program by `modeldriver prep`): "
          "GETRANGE/SUBSTR for lengths 0..6 x start,end in -9..9 and ZREVRANGE for sizes 0..5 x start,stop in -7..7 with and without scores (both enumerated exhaustively, with the reply Redis "
          "defines computed independently in Go as the oracle), ZREVRANGEBYSCORE over 10x10 bounds (open, closed, infinite) x WITHSCORES x 7 LIMIT forms on a set with a score tie (Redis oracle), "
-         "counters at the 64-bit boundaries, random programs of 1..12 commands over every framework-implemented command, string programs of 1..10 commands checked reply by reply against an "
+         "counters at the 64-bit boundaries and on stored values in Go literal syntax (0x10, 0b11, 1_000 ...), MGET/HMGET with 255..1100 keys, random programs of 1..12 commands over every framework-implemented command, string programs of 1..10 commands checked reply by reply against an "
          "independent sequential specification - once with the double (seqspec) and once with a real stateful Go string store behind the framework (sserve); "
          "non-trivial = every case",
     trusted_base=SERVE_TB + ["the Lean reference store (Model/RefStore) supplies the primitive operations' results; scores from the exactly representable pool"],
@@ -139,13 +139,13 @@ PROPS["C15"] = dict(timeout=1800,
          "connecting, 3 s watchdog) 40 / 400 rounds; non-trivial = every case",
     trusted_base=LIFE_TB, assumptions=["the interleavings of lifecycle calls with exiting accept loops / connection goroutines are forced by delaying goroutines at the verif schedule points (not enumerated by a blocking controller) and covered for every schedule by the Lifecycle transition system"])
 PROPS["C19"] = dict(timeout=1800,
-    rule="every ending mode (client close, TCP reset - also underneath TLS -, QUIT, malformed frame, half request then close, pipelined requests left unread) at pipeline positions 0..2 on the plain and the TLS port; every TLS handshake fault (plain text, garbage, abort after ClientHello, no / self-signed / "
+    rule="every ending mode (client close, TCP reset - also underneath TLS -, QUIT, malformed frame, half request then close, cut between CR and LF of a header (3 cut points), cut inside a bulk payload, pipelined requests left unread) and Stop with clients stalled inside a request, at pipeline positions 0..2 on the plain and the TLS port; every TLS handshake fault (plain text, garbage, abort after ClientHello, no / self-signed / "
          "foreign / expired certificate, rejected name), a stalled handshake ended by the client and by Stop; Stop with several connections in flight; churn of 150 (quick) / 10^4 (thorough) connect-disconnect cycles mixing all "
          "endings with up to 32 in flight; oracle: registry, goroutines and listening sockets at their baseline after every ending; non-trivial = every case",
     trusted_base=LIFE_TB, assumptions=["descriptor tables and TCP reset semantics are the kernel's; the model claims the control flow reaches the releases, the tie observes the effect"])
 PROPS["C09"] = dict(timeout=1800,
     rule="complete enumeration: configurations {no rule, common-name rule, rule + password, TLS only} x credentials {none, plain text, self-signed, foreign CA, expired, right CA wrong name, name only on an intermediate, "
-         "right CA right name, garbage, abort after ClientHello, stall} x position {first, between two good clients, while a good client is connected, all in a row}; oracle: faulty clients are disconnected and no command of "
+         "right CA right name, garbage, abort after ClientHello, stall} x position {first, between two good clients, while a good client is connected, all in a row}; harness TLS clients keep a session cache per credential (a second connection with the same credential resumes the session); oracle: faulty clients are disconnected and no command of "
          "theirs is executed (handler call counter), both listeners keep serving; non-trivial = every case",
     trusted_base=LIFE_TB, assumptions=["RequireAndVerifyClientCert verifies exactly chains to the configured CA that are currently valid (crypto/tls trusted)"])
 
